@@ -217,7 +217,7 @@ structure St where
   decoded : Option AnyState := none
   removed : List Nat := []
   refs : List (String × List String) := []
-  entryDel : Bool := false     -- HNSW entry point soft-deleted when WriteTo was called
+  entryDel : Bool := false     -- HNSW vertices soft-deleted (tombstones pending) when WriteTo was called
   textPending : Bool := false  -- BM25 documents soft-deleted when WriteTo was called
 
 def init (ps : List String) : Option St :=
@@ -321,9 +321,9 @@ def opCodec (st : St) (toks : List String) : St × String :=
         | _, _, _, _ => (st, s!"SPECFAIL removed ids in stream: {present}")
     | _, _ => (st, "BADOP removed")
   | ["flags"] =>
-    ({ st with entryDel := kvGet post "entrydel" == some "1",
+    ({ st with entryDel := kvGet post "hnswpending" == some "1",
                textPending := kvGet post "textpending" == some "1" },
-     s!"ok pending={(kvGet post "pending").getD "0"} entrydel={(kvGet post "entrydel").getD "0"} textpending={(kvGet post "textpending").getD "0"}")
+     s!"ok pending={(kvGet post "pending").getD "0"} hnswpending={(kvGet post "hnswpending").getD "0"} textpending={(kvGet post "textpending").getD "0"}")
   | ["q", label, phase] =>
     let setRef (st : St) : St := { st with refs := (label, post) :: st.refs.filter (·.1 != label) }
     match st.refs.find? (·.1 == label) with
@@ -338,12 +338,13 @@ def opCodec (st : St) (toks : List String) : St × String :=
         | none => (st', "ok same=1 reordered=1")
         | some why =>
           if phase == "after" && st.entryDel then
-            -- D2: a soft-deleted entry point is neither seeded nor replaced until Flush (here:
-            -- the Flush inside WriteTo) elects a new one, and vertices added meanwhile are
-            -- isolated: searches before and after the flush start from different vertices.
-            -- (The exact HNSW answers in this situation are predicted and checked by C12's
-            -- model; here only the trigger and reload == after are checked.)
-            (st', s!"KNOWN D2-hnsw-entry-removed {label}")
+            -- D21 (C12): since fix f6a780e searches walk through tombstoned HNSW vertices; the
+            -- Flush inside WriteTo drops them and their edges without reconnecting the
+            -- neighbours, so a live vertex that was reachable only through tombstones is found
+            -- before writing and not after.  (D2 — tombstoned entry point never seeded — is
+            -- fixed; the exact HNSW answers are predicted and checked by C12's model; here only
+            -- the trigger and reload == after are checked.)
+            (st', s!"KNOWN D21-hnsw-write-flush-changes-answers {label}")
           else if phase == "after" && st.textPending && why == "scores" then
             -- BM25 statistics (N, df, average length) count soft-deleted documents until the
             -- Flush inside WriteTo: same ids, other scores
